@@ -39,3 +39,18 @@ package post
 //@     invariant blen(buf) == 34 + 2*iter && hdr(buf, info, 131072) && bdata(buf)[32]*256 + bdata(buf)[33] == len(info.Names)
 //@     invariant mac != nil && buf != nil && fresh(buf) && 0 <= numStrings && numStrings <= iter && (isnil(stringData) || fresh(stringData)) && numGlyphs == len(info.Names)
 //@     invariant forall s string :: has(mac, s) ==> 0 <= mac[s] && mac[s] < 258
+
+// Read: total on arbitrary bytes (no panic; the name loop reads one Pascal
+// string per iteration and ends when the index is covered or the input ends);
+// reader faults are returned.  The header goes through binary.Read with the
+// Parser as reader (assumed model parser.binaryReadModel).
+//@ func Read(r parser.ReadSeekSizer) (info *Info, err error)   props: C02 C18 C14
+//@   requires r != nil && rpos(r) == 0 && fsize(r) >= 0 && fsize(r) <= 1099511627776
+//@   ensures err == nil ==> info != nil
+//@   ensures faults(r) > old(faults(r)) ==> err != nil
+//@   opt assume_make=1
+//@   loop 0
+//@     invariant parser.inv(p) && p.r == r && fresh(p) && faults(r) == old(faults(r)) && info != nil && fresh(info) && fresh(info.Names) && len(info.Names) == numGlyphs && numGlyphs == len(glyphNameIndex) && (isnil(names) || fresh(names))
+//@   loop 1
+//@     invariant parser.inv(p) && p.r == r && fresh(p) && faults(r) == old(faults(r)) && info != nil && fresh(info) && fresh(info.Names) && len(info.Names) == numGlyphs && numGlyphs == len(glyphNameIndex) && (isnil(names) || fresh(names)) && 0 <= idx && idx <= 65535
+//@     decreases idx + 1 - len(names)
